@@ -241,6 +241,30 @@ def job_average(ctx, k):
                     ref = V[:, -1]
                     ctx.expect(abs(abs(float(a @ ref)) - 1) <= 1e-9, 'average = dominant eigenvector of sum q q^T', key, a, ref, 1e-9)
                 ctx.cls('average'); ctx.seen(('avg', idx, wname))
+    # scalar-last arrays, and histories on one object: average (with weights / a span), then look at the object and average again
+    for order in ('H', 'S'):
+        X = np.array(S[:6]) if order == 'H' else np.roll(np.array(S[:6]), -1, axis=1)
+        for wname, kw in (('none', {}), ('weights', {'weights': np.array([0.5, 1.0, 2.0, 4.0, 1.0, 0.25])}), ('span', {'span': (1, 4)}),
+                          ('span+weights', {'span': (1, 4), 'weights': np.array([2.0, 0.5, 3.0])})):
+            key = f'order={order} average({wname}) k{k}'
+            ctx.evals += 1
+            try:
+                QA = QuaternionArray(X.copy(), order=order)
+                before = np.asarray(QA, float).copy(); before_attr = np.asarray(QA.array, float).copy()
+                a1 = np.asarray(QA.average(**{k_: (v.copy() if hasattr(v, 'copy') else v) for k_, v in kw.items()}))
+                ctx.expect(_is_unit_real(a1, tol=1e-9), 'average is a real unit quaternion', key, {'dtype': str(a1.dtype), 'value': a1}, 'real float unit 4-vector', 1e-9)
+                ctx.expect(np.array_equal(np.asarray(QA, float), before) and np.array_equal(np.asarray(QA.array, float), before_attr),
+                           'average leaves the rows of the array as they were (still unit quaternions)', key, np.linalg.norm(np.asarray(QA.array, float), axis=1), 'unchanged rows')
+                a2 = np.asarray(QA.average(**{k_: (v.copy() if hasattr(v, 'copy') else v) for k_, v in kw.items()}))
+                ctx.expect(a1.shape == a2.shape and np.array_equal(a1, a2), 'a second average on the same object gives the same quaternion', key, a2, a1)
+                Rb = np.asarray(QA.to_DCM())
+                ctx.expect(Rb.shape == (6, 3, 3) and max(rq.so3_defect(r_) for r_ in Rb) <= 1e-12, 'after average() the object still converts to proper rotations', key, None, 'rotations')
+                if order == 'S' and a1.shape == (4,) and not np.iscomplexobj(a1):
+                    aH = np.asarray(QuaternionArray(np.array(S[:6]).copy()).average(**{k_: (v.copy() if hasattr(v, 'copy') else v) for k_, v in kw.items()}), float)
+                    ctx.expect(abs(abs(float(np.roll(a1.astype(float), 1) @ aH)) - 1) <= 1e-9, "order='S': the average is the scalar-first average in scalar-last order", key, a1, np.roll(aH, -1), 1e-9)
+            except Exception as ex:
+                ctx.fail('average history raises', key, repr(ex)[:200], 'unit quaternion')
+            ctx.cls('average')
     # one quaternion to average (N = 1, or a one-row span of a longer array), with and without a weight that is not one
     for i in (0, 5, 11):
         for wname, w in (('none', None), ('0.25', np.array([0.25])), ('2.5', np.array([2.5])), ('1', np.array([1.0]))):
